@@ -18,8 +18,6 @@ Definition ote_eqb (a b : ote) : bool :=
 Definition oedit_eqb (a b : oedit) : bool :=
   let '(f1, t1, x1) := a in let '(f2, t2, x2) := b in Z.eqb f1 f2 && Z.eqb t1 t2 && list_N_eqb x1 x2.
 
-Definition ttype_of_code (c : N) : ttype :=
-  match filter (fun t => N.eqb (tt_code t) c) all_tt with t :: _ => t | [] => INVALID end.
 
 Inductive fmtcase :=
 (* Fmt(input): accepted with this output, or rejected *)
